@@ -194,6 +194,15 @@ def build_module(module: str, cls: str, vtype: str, lit: str, deps: list[dict[st
 		lines.append('\t\tprint(key, val)')
 	lines.append('\tfor x in xs:')
 	lines.append('\t\tprint(x)')
+	if dict_local:
+		# a node with two list-valued expandable properties (statements, then catches)
+		lines.append('\ttry:')
+		lines.append('\t\tprint(k)')
+		lines.append('\t\tprint(own2)')
+		lines.append('\texcept RuntimeError as e:')
+		lines.append('\t\traise RuntimeError() from e')
+		lines.append('\texcept Exception as e:')
+		lines.append('\t\tprint(e)')
 	if wide:
 		# the last local shadows a module-level function: its record is among the last of the stored table, and without it the name still
 		# resolves -- to the function, so the declaration turns into a plain assignment
